@@ -171,13 +171,25 @@ def run_one(cfg):
     target, x0, lb, ub, plb, pub, opts, cons = make_problem(cfg)
     calls = []
 
-    def wrapped(x):
-        r = target(x)
-        if isinstance(r, tuple):
-            calls.append((fl(x), float(r[0]), float(r[1])))
-        else:
-            calls.append((fl(x), float(r), None))
-        return r
+    class Wrapped:
+        """the user's target as a callable OBJECT with state of its own (a model holding its data set and a call counter)"""
+        def __init__(self):
+            self.n_calls = 0
+
+        def __call__(self, x):
+            self.n_calls += 1
+            r = target(x)
+            if isinstance(r, tuple):
+                calls.append((fl(x), float(r[0]), float(r[1])))
+            else:
+                calls.append((fl(x), float(r), None))
+            return r
+
+        def __deepcopy__(self, memo):          # copying the model copies its state, not the harness's bookkeeping
+            c = Wrapped()
+            c.n_calls = self.n_calls
+            return c
+    wrapped = Wrapped()
 
     rec = dict(cfg=cfg, calls=calls, probes=[], records=[], crash=None)
     orig_record = IterationHistory.record
@@ -299,6 +311,8 @@ def run_one(cfg):
                                     bads.optim_state.get("ysd_vec")])]
         # ---- later use of the optimiser must not change the result
         before = copy.deepcopy(rec["result"])
+        fun_in_result = dict.__getitem__(result, "fun") if "fun" in dict.keys(result) else None
+        fun_state_before = getattr(fun_in_result, "n_calls", None)
         for arr in (bads.x, bads.x0, bads.u, bads.u_best, bads.optim_state.get("yval_vec"), bads.optim_state.get("ysd_vec")):
             if isinstance(arr, np.ndarray) and arr.dtype != object:
                 arr += 17.0
@@ -320,6 +334,8 @@ def run_one(cfg):
         rec["again"] = again
         after = {k: canon(dict.__getitem__(result, k)) for k in dict.keys(result)}
         rec["result_changed"] = [k for k in before if after.get(k) != before[k]] + [k for k in after if k not in before]
+        if fun_state_before is not None and getattr(fun_in_result, "n_calls", None) != fun_state_before:
+            rec["result_changed"].append("fun")        # the result holds the user's LIVE callable: evaluating the model again changed a returned result
         del calls[rec["final"]["n_calls"]:]        # calls made by this harness after the run are not part of the run
     except Exception:
         rec["crash"] = traceback.format_exc()[-1500:]
